@@ -275,7 +275,7 @@ static void family_scanc(std::vector<hm::Scenario>& out, unsigned oracles, bool 
                     if (sh->pal.count(nk) == 0) continue;
                     for (std::size_t si : {std::size_t(0), std::size_t(2)}) {
                         if (si >= scans.size()) continue;
-                        add(out, fam, *sh, {{scans[si]}, {mk(REMOVE, k), mk(PUT, sh->pal.at(nk), 2)}}, oracles, quick_shapes.count(sn) != 0 && si == 0, 2, 2);
+                        add(out, fam, *sh, {{scans[si]}, {mk(REMOVE, k), mk(PUT, sh->pal.at(nk), 2)}}, oracles, quick_shapes.count(sn) != 0 && (si == 0 || sn == "B3" || sn == "B15"), 2, 2);
                     }
                 }
                 add(out, fam, *sh, {{scans[0]}, {mk(REMOVE, k), mk(PUT, k, 2)}}, oracles, quick_shapes.count(sn) != 0, 2, 2);
